@@ -2063,6 +2063,9 @@ static void get_user_data (interactive_t* ip, io_event_t* evt) {
  * @returns Pointer to a static buffer containing the next user command to be processed
  * and updates \c command_giver if a command is found, or 0 if no commands are available.
  */
+#ifdef TAEDLAR_NEOLITH_VERIF
+int verif_cmd_cursor = -1;
+#endif
 static char* get_user_command () {
 
   /* A static counter that iterates between all users in sequence.
@@ -2074,6 +2077,14 @@ static char* get_user_command () {
   interactive_t *ip = NULL;
   char *user_command = NULL;
   static char buf[MAX_TEXT];
+#ifdef TAEDLAR_NEOLITH_VERIF
+  /* verification hook: lets a harness position the rotating cursor (a function-scope static) */
+  if (verif_cmd_cursor >= 0)
+    {
+      s_next_user = verif_cmd_cursor;
+      verif_cmd_cursor = -1;
+    }
+#endif
 
   /*
    * find and return a user command.
